@@ -32,6 +32,10 @@ def _rebuild_checks(ctx, p, what):
         "todict": lambda: numpoly.polynomial(p.todict(), names=p.names),
         "polynomial(p)": lambda: numpoly.polynomial(p),
     }
+    if len(p.keys) > 1 and p.dtype != object and not ctx.symbolic:
+        # the raw structured view with its fields listed in another order (numpy keeps the offsets): same polynomial
+        routes["values[fields reversed]+names"] = lambda: numpoly.polynomial(p.values[[str(k) for k in p.keys][::-1]], names=p.names)
+        routes["values[fields rotated]+names"] = lambda: numpoly.polynomial(p.values[[str(k) for k in p.keys][1:] + [str(p.keys[0])]], names=p.names)
     if names == tuple("q%d" % i for i in range(len(names))):
         routes["todict (no names)"] = lambda: numpoly.polynomial(p.todict())
     for rname, route in routes.items():
